@@ -160,6 +160,10 @@ class SteadyDetonationReactionZone(ExactSolver):
 
         xsolution = dict()
 
+        # positions come first in the returned solution, as for every solver
+
+        xsolution['position'] = xvec
+
         varnames = ['pressure','velocity','density','sound_speed',
                         'reaction_progress','position_relative']
 
@@ -204,12 +208,6 @@ class SteadyDetonationReactionZone(ExactSolver):
         for var in varnames:
             interpfcn = interp1d(tsolution['position'][::-1],tsolution[var][::-1])
             xsolution[var][jmask] = interpfcn(xvec[jmask])
-
-        #
-        # assign xvec into the solution object
-        #
-
-        xsolution['position'] = xvec
 
         return ExactSolution(xsolution.values(),
                              names=list(xsolution.keys()))
